@@ -547,3 +547,192 @@ def rule_v2_rename(ctx):
             "to one, or whose new labels overlap the old ones (a<->A), the "
             "label view and the out/in views end up with different edge "
             "sets", instance="rename_generators[inplace]")
+
+
+# ---------------------------------------------------------------------------
+def rule_cm1(ctx):
+    r = ctx.r
+    r.rule("CM1", "from_diagram builds the Coxeter matrix by iterating the "
+                  "same generator order in both dimensions and indexing the "
+                  "order table with both loop variables; generator_index "
+                  "and ordered_gens are mutually inverse")
+    f = ctx.p.get_function(COX, "CoxeterGroup.from_diagram")
+    r.analysed(f)
+    comp = None
+    for n in ast.walk(f.node):
+        if isinstance(n, ast.Assign) and dotted(n.targets[0]) == \
+                "self.coxeter_matrix":
+            for c in ast.walk(n.value):
+                if isinstance(c, ast.ListComp) and isinstance(c.elt, ast.ListComp):
+                    comp = c
+    if comp is None:
+        r.note("CM1", loc(f, f.node), "from_diagram",
+               "matrix comprehension not recognised; not judged")
+        return
+    outer = comp.generators[0]
+    inner = comp.elt.generators[0]
+    o_it, i_it = dotted(outer.iter), dotted(inner.iter)
+    elt = comp.elt.elt
+    uses = {x.id for x in ast.walk(elt) if isinstance(x, ast.Name)}
+    both = {dotted(outer.target), dotted(inner.target)} <= uses
+    if o_it == i_it and both:
+        r.ok("CM1", "from_diagram", loc(f, comp), dotted(comp)[:100],
+             f"rows and columns both iterate `{o_it}`")
+    else:
+        r.violation(
+            "CM1", f"{f.fq}|matrix", loc(f, comp), dotted(comp)[:160],
+            f"rows iterate `{o_it}` but columns iterate `{i_it}`"
+            + ("" if both else " and the entry is not indexed by both loop "
+               "variables")
+            + ": when the two orders differ (edges listed in an order other "
+              "than the canonical one) the Coxeter matrix is row-permuted "
+              "and non-symmetric, and the representations violate the "
+              "relations", instance="from_diagram")
+
+
+def rule_dv1(ctx):
+    r = ctx.r
+    r.rule("DV1", "the neighbour clean-up loops of FSA.delete_vertex are "
+                  "never cut short (no break / return): every parallel edge "
+                  "into the deleted vertex is removed from the label view")
+    f = ctx.p.get_function(FSA, "FSA.delete_vertex")
+    r.analysed(f)
+    bad = [n for n in ast.walk(f.node)
+           if isinstance(n, (ast.Break, ast.Return))]
+    pops = [n for n in ast.walk(f.node) if isinstance(n, ast.Call)
+            and isinstance(n.func, ast.Attribute) and n.func.attr == "pop"
+            and "_graph_dict[" in dotted(n.func.value)]
+    parents = f.module.parents
+    in_loop = []
+    for p_ in pops:
+        cur = p_
+        depth = 0
+        while cur is not f.node:
+            cur = parents[cur]
+            if isinstance(cur, ast.For):
+                depth += 1
+        in_loop.append(depth)
+    if bad:
+        r.violation(
+            "DV1", f"{f.fq}|early-exit", loc(f, bad[0]),
+            norm_stmt(_stmt_of(f, bad[0]))[:100],
+            "the clean-up of labels pointing at the deleted vertex stops at "
+            "the first match: with parallel edges w -> v (different labels) "
+            "the label view keeps a dangling edge to the removed vertex "
+            "while the out/in views drop it", instance="delete_vertex")
+    elif pops and max(in_loop) < 2:
+        r.violation(
+            "DV1", f"{f.fq}|single-pop", loc(f, pops[0]), dotted(pops[0]),
+            "the label pointing at the deleted vertex is removed outside the "
+            "per-label loop (at most one label per neighbour is removed)",
+            instance="delete_vertex")
+    else:
+        r.ok("DV1", "delete_vertex", loc(f, f.node), "",
+             "all labels of every in-neighbour are examined")
+
+
+def rule_bfs1(ctx):
+    r = ctx.r
+    r.rule("BFS1", "remove_long_paths explores breadth first: the vertex "
+                   "queue is fed at the right (append/extend) and consumed "
+                   "at the left (popleft); distances are assigned on first "
+                   "discovery, which is only correct in FIFO order")
+    f = ctx.p.get_function(FSA, "FSA.remove_long_paths")
+    r.analysed(f)
+    q = None
+    for n in ast.walk(f.node):
+        if isinstance(n, ast.Assign) and isinstance(n.value, ast.Call) \
+                and dotted(n.value.func) in ("deque", "collections.deque"):
+            q = dotted(n.targets[0])
+    if q is None:
+        r.note("BFS1", loc(f, f.node), "remove_long_paths",
+               "no deque; not judged")
+        return
+    ops = {}
+    for n in ast.walk(f.node):
+        if isinstance(n, ast.Call) and isinstance(n.func, ast.Attribute) \
+                and dotted(n.func.value) == q:
+            ops.setdefault(n.func.attr, n)
+    takes = [k for k in ops if k in ("pop", "popleft")]
+    puts = [k for k in ops if k in ("append", "extend", "appendleft",
+                                    "extendleft")]
+    fifo = (takes == ["popleft"] and set(puts) <= {"append", "extend"}) or (
+        takes == ["pop"] and set(puts) <= {"appendleft", "extendleft"})
+    if fifo:
+        r.ok("BFS1", "remove_long_paths", loc(f, ops[takes[0]]),
+             f"{q}.{takes[0]}()", "first in, first out")
+    else:
+        n = ops[takes[0]] if takes else f.node
+        r.violation(
+            "BFS1", f"{f.fq}|queue", loc(f, n),
+            f"{q}: take={takes} put={puts}",
+            "the queue is not consumed first-in-first-out: the traversal is "
+            "depth first while distances are still fixed on first "
+            "discovery, so a vertex reached first along a longer branch "
+            "keeps the wrong distance and true shortest-path edges are "
+            "dropped", instance="remove_long_paths")
+
+
+def rule_fw1(ctx):
+    r = ctx.r
+    r.rule("FW1", "free_words_of_length attaches the new generator on the "
+                  "side of the word whose letter the free-reduction test "
+                  "inspects (word + g with word[-1], or g + word with "
+                  "word[0])")
+    f = ctx.p.get_function(REP, "Representation.free_words_of_length")
+    r.analysed(f)
+    side = None
+    idx = None
+    ynode = None
+    for n in ast.walk(f.node):
+        if isinstance(n, ast.Yield) and isinstance(n.value, ast.BinOp) \
+                and isinstance(n.value.op, ast.Add):
+            L, R = dotted(n.value.left), dotted(n.value.right)
+            if L == "word":
+                side = "append"
+            elif R == "word":
+                side = "prepend"
+            ynode = n
+        if isinstance(n, ast.Subscript) and dotted(n.value) == "word":
+            v = const_value(n.slice)
+            if v in (-1, 0):
+                idx = v
+    if side is None or idx is None:
+        r.note("FW1", loc(f, f.node), "free_words_of_length",
+               "idiom not recognised; not judged")
+        return
+    if (side, idx) in (("append", -1), ("prepend", 0)):
+        r.ok("FW1", "free_words_of_length", loc(f, ynode), dotted(ynode),
+             f"letter is {side}ed and word[{idx}] is tested")
+    else:
+        r.violation(
+            "FW1", f"{f.fq}|side", loc(f, ynode), dotted(ynode),
+            f"the generator is {side}ed but the reduction test looks at "
+            f"word[{idx}]: from length 3 on non-reduced words such as 'Bba' "
+            "are produced and reduced ones are missing",
+            instance="free_words_of_length")
+
+
+def rule_gi1(ctx):
+    r = ctx.r
+    r.rule("GI1", "ProjectiveObject.__getitem__ rebuilds the selection from "
+                  "the primary data only (derived data is recomputed): "
+                  "auxiliary / dual data is never indexed with the caller's "
+                  "key, which may cut into the unit axes")
+    f = ctx.p.get_function(PROJ, "ProjectiveObject.__getitem__")
+    r.analysed(f)
+    key = f.params[1]
+    bad = [n for n in ast.walk(f.node) if isinstance(n, ast.Subscript)
+           and dotted(n.slice) == key
+           and dotted(n.value) in ("self.aux_data", "self.dual_data")]
+    if not bad:
+        r.ok("GI1", "__getitem__", loc(f, f.node), "",
+             "only proj_data is indexed")
+    else:
+        r.violation(
+            "GI1", f"{f.fq}|aux-index", loc(f, bad[0]), dotted(bad[0]),
+            f"`{dotted(bad[0])}` carries stored derived data through an "
+            "arbitrary index: a key that reaches into the unit axes "
+            "(polys[:, :4], polys[0, 1:4]) selects vertices but keeps the "
+            "old edges, which then no longer match the vertices",
+            instance="__getitem__")
